@@ -231,8 +231,48 @@ def fields_rule(ctx, repo, templates):
             else:
                 ctx.violation('%s %s[%s]' % (name, var, key), 'skoolkit/defaults.py:%d' % line0, '%s reads %s[%s] but no dictionary builder in skoolhtml.py produces the key %r' % (name, var, key, key))
 
+def page_predicate_rule(ctx, repo):
+    ctx.rule('C16.5-page-predicate', 'an operand link is created only if the *entry* that owns the target instruction passes the same test HtmlWriter uses to decide which entries get pages', floor=1)
+    hw = repo.mod('skoolhtml').method('HtmlWriter', '__init__')
+    pred = None
+    for n in ast.walk(hw):
+        if isinstance(n, ast.ListComp) and 'memory_map' in ast.unparse(n.generators[0].iter) and n.generators[0].ifs:
+            t = n.generators[0].ifs[0]
+            var = n.generators[0].target.id
+            if isinstance(t, ast.Compare) and isinstance(t.left, ast.Attribute) and isinstance(t.left.value, ast.Name) and t.left.value.id == var:
+                pred = (t.left.attr, type(t.ops[0]).__name__, ast.unparse(t.comparators[0]))
+    if pred is None:
+        raise FactError('skoolkit/skoolhtml.py: filter of parser.memory_map in HtmlWriter.__init__ not found')
+    sp = repo.mod('skoolparser')
+    cr = None
+    for c in sp.classes:
+        if 'calculate_references' in sp.methods(c):
+            cr = sp.methods(c)['calculate_references']
+    if cr is None:
+        raise FactError('skoolkit/skoolparser.py: calculate_references not found')
+    # which local holds the owning entry: instructions = {i.address: (i, e) ...}; ref_i, ref_e = instructions.get(...)
+    entry_var = None
+    for n in ast.walk(cr):
+        if isinstance(n, ast.Assign) and isinstance(n.targets[0], ast.Tuple) and len(n.targets[0].elts) == 2 and isinstance(n.value, ast.Call) and ast.unparse(n.value.func).endswith('.get'):
+            entry_var = n.targets[0].elts[1].id
+    found = False
+    for n in ast.walk(cr):
+        if isinstance(n, ast.If) and any(isinstance(x, ast.Assign) and ast.unparse(x.targets[0]).startswith('references[') for x in n.body):
+            found = True
+            conj = n.test.values if isinstance(n.test, ast.BoolOp) and isinstance(n.test.op, ast.And) else [n.test]
+            ok = any(isinstance(c, ast.Compare) and isinstance(c.left, ast.Attribute) and isinstance(c.left.value, ast.Name) and c.left.value.id == entry_var
+                     and (c.left.attr, type(c.ops[0]).__name__, ast.unparse(c.comparators[0])) == pred for c in conj)
+            if ok:
+                ctx.ok({'link guard': '%s.%s %s %s' % (entry_var, pred[0], pred[1], pred[2])})
+            else:
+                ctx.violation('calculate_references guard', 'skoolkit/skoolparser.py:%d' % n.lineno,
+                              'operand links are created under `%s`, which does not test the owning entry (%s.%s %s %s) the way HtmlWriter decides which entries get pages: a link into an unwritten page can be produced' % (ast.unparse(n.test)[:120], entry_var, pred[0], pred[1], pred[2]))
+    if not found or entry_var is None:
+        raise FactError('skoolkit/skoolparser.py: reference creation site in calculate_references not recognised')
+
 def run(ctx):
     repo = pyfacts.Repo(ctx.repo_root)
+    page_predicate_rule(ctx, repo)
     templates = template_rule(ctx, repo)
     single_source_rule(ctx, repo)
     fields_rule(ctx, repo, templates)
